@@ -59,6 +59,9 @@ CHECKS = {
  "C14": dict(level="fault_enumeration", technique="exhaustive enumeration of (rule file, fault kind, fault position, fault-before/after-load order) on a private Rules copy with a harness clock, followed by repair and differential comparison with the fault-free baseline",
              text="Every rule file reachable from three configurations x 10-15 fault kinds (deleted, empty, scalar, map, not YAML, truncation at entry boundaries and mid-entry, uncompilable XPath, unknown key, wrongly typed definition/character entry, prefs of the wrong shape) x {fault before first load, after load}, plus 7 directory-level histories per configuration. Under a fault each call must return its pre-fault result, an error naming the file, or (well-formed shorter file / documented fallback) any Ok; nothing may panic; after restoring the file with a newer time stamp, CheckRuleFiles=All and re-pointing the rules directory every output must equal the baseline.",
              note="File times come from a harness counter via File::set_modified. After an initialisation that already failed naming the file, and after a refused set_mathml, follow-on errors need not name the file again.", design="§4 C14", engine="E4"),
+ "C08": dict(level="exploration", technique="exhaustive enumeration of bounded input/argument/history families against the real library in supervised child processes (panic hook, exit status, watchdog) with a fresh-session recovery oracle",
+             text="Families: every corpus document truncated at every byte; every element renamed to each of 47 element names; the C01 deviation space incl. the library's own marker attributes; 34 token texts x 5 kinds x 9 hosts x 4 mathvariants; nesting ladders and wide rows; all navigation commands, key codes x modifiers, set_navigation_node ids x offsets (incl. usize::MAX), node-from-braille positions; all call sequences up to length 3 (thorough 4) over a 26-class alphabet in fresh sessions; every preference name x 19 values and same-name pairs; nested intent attributes under both recovery settings; 9 braille code names. Every call must return Ok/Err (panic hook + catch_unwind, child exit status, 15 s watchdog); after an error a valid expression must give the fresh-session results. Panic keys are (API entry, source text of the panicking line), so a new site is a new key.",
+             note="'Fails to terminate' is checked as 'exceeds the watchdog'. Overflow checks are on, so arithmetic wraps surface as panics.", design="§4 C08", engine="E1+E2"),
 }
 PENDING = {}
 
